@@ -25,6 +25,31 @@ def index_entries(body, tb):
     return out
 
 
+def check_always_recorded(f, rep, rule):
+    """The digests a verifier relies on are recorded on every build, whatever the configuration: the entries for the payload
+    digest, its algorithm and the header SHA-256 are created on every path that reaches the construction of the header
+    (the reader skips a check whose tag is absent, so an omitted digest is an unverified payload)."""
+    pd = f.one("PackageBuilder::prepare_data")
+    tb = TermBuilder(pd)
+    ents = index_entries(pd, tb)
+    fe = [c for c in pd.calls() if c.decl.endswith("Header::<T>::from_entries")]
+    if not rep.anchor(len(fe) >= 1, rule, "Header::from_entries call in prepare_data"):
+        return
+    for tag in ("RPMTAG_PAYLOADDIGEST", "RPMTAG_PAYLOADDIGESTALGO", "RPMTAG_PAYLOADDIGESTALT"):
+        cs = [c for (t, _d, c) in ents if t == tag]
+        ok = bool(cs) and all(any(pd.dominates(c.bb, x.bb) for c in cs) for x in fe)
+        rep.check(ok, rule, "%s|always" % tag, "%s is recorded on every build" % tag,
+                  "%s is %s: a package built on the other paths carries no such digest and verification silently skips it" % (tag, "recorded only on some paths" if cs else "never recorded"),
+                  cs[0].loc() if cs else pd.span)
+    for bname in ("PackageBuilder::build", "Package::sign_with_timestamp", "Package::clear_signatures"):
+        for b in [x for x in f.find(bname) if x.kind != "closure"]:
+            sets = [c for c in b.calls() if c.decl.endswith("set_sha256_digest")]
+            builds = [c for c in b.calls() if c.decl.endswith("SignatureHeaderBuilder::<T>::build") or c.decl.endswith("SignatureHeaderBuilder::build") or re.search(r"SignatureHeaderBuilder(::<.*>)?::build$", c.decl)]
+            if builds:
+                rep.check(bool(sets) and all(any(b.dominates(s_.bb, x.bb) for s_ in sets) for x in builds), rule, "%s|sha256-always" % fmt_key(b.path),
+                          "%s always records the header SHA-256" % fmt_key(b.path), "%s can build a signature header without the header SHA-256 digest" % b.path, b.span)
+
+
 def check_hashing_adapter(b, rep):
     tb = TermBuilder(b)
     upd = [c for c in b.calls() if c.decl in ("digest::Digest::update", "digest::Update::update", "fixtures::MiniDigest::update") or c.decl.endswith("MiniDigest::update")]
@@ -112,6 +137,7 @@ def run(f, fixture, rep, cfg, tier):
         got = [d for d, _c in by_tag.get(tag, [])]
         rep.check(got == [w], "R2", "%s|provenance" % tag, "%s <- %s" % (tag, w[len("rpm::headers::header::IndexData::"):]),
                   "%s is recorded as %s, expected %s" % (tag, [g[:300] for g in got], w), (by_tag.get(tag) or [(None, pd)])[0][1].loc() if by_tag.get(tag) else pd.span)
+    check_always_recorded(f, rep, "R2")
     for tag in ("RPMTAG_PAYLOADDIGESTALGO", "RPMTAG_FILEDIGESTALGO"):
         got = [d for d, _c in by_tag.get(tag, [])]
         ok = len(got) == 1 and re.fullmatch(r"rpm::headers::header::IndexData::Int32\{vec!\[u32\(AddWithOverflow\(8_u32, 0_u32\)\)\]\}|rpm::headers::header::IndexData::Int32\{vec!\[8_u32\]\}", got[0]) is not None
